@@ -23,6 +23,13 @@ package pubsub
 
 //@ spec fn score(gs *GossipSubRouter, p string) real = ite(gs.score == nil, 0.0, scoreOf(scoreEpoch[p], gs.score, p))
 
+// The router's tables are reachable only through the router: no other component holds a
+// reference to these maps (checked: their fields are accessed only in gossipsub.go and in
+// partialMessageRouter.MeshPeers). A callee that never touches a GossipSubRouter field therefore
+// leaves them unchanged, even when it writes other maps of the same Go type (peerScore.peerIPs
+// has the type of mesh and fanout).
+//@ owns GossipSubRouter: mesh, fanout, backoff, direct, peers, gossip, control, outbound, unwanted, lastpub, peerhave, iasked, peerdontwant
+
 // ---- C09: acceptance ----
 
 // The validation-overload gater only ever suppresses payload, never control traffic.
@@ -296,3 +303,173 @@ package pubsub
 //@      (forall t string :: t != topic ==> (t in gs.mesh) == old(t in gs.mesh) && gs.mesh[t] == old(gs.mesh[t])) &&
 //@      (forall t string, q string :: t != topic ==> has(gs.mesh, t, q) == old(has(gs.mesh, t, q)))
 //@ spec fn nGraftSame() bool = forall t string, q string :: nGraft[t][q] == old(nGraft[t][q])
+
+// Leave: no-op when not joined; otherwise LEAVE is traced once, the mesh is gone, and every
+// former member is traced as PRUNE, sent exactly one PRUNE (built as an unsubscribe prune) and
+// given the unsubscribe backoff; other meshes are untouched.
+//@ func (*GossipSubRouter).Leave
+//@   property C07 C08 C19
+//@   requires sep: sepMesh(gs) && sepBackoff(gs) && validBackoffParams(gs)
+//@   noframe
+//@   loop 1 invariant pruning: !(topic in gs.mesh) && gmap == old(gs.mesh[topic]) &&
+//@        (forall q string :: nPrune[topic][q] - old(nPrune[topic][q]) == ite($visited[q], 1, 0)) &&
+//@        (forall t string, q string :: t != topic ==> nPrune[t][q] == old(nPrune[t][q])) &&
+//@        (forall q string :: $visited[q] ==> old(has(gs.mesh, topic, q))) &&
+//@        (forall q string :: (q in gmap) == old(has(gs.mesh, topic, q))) &&
+//@        (forall q string :: $visited[q] ==> has(gs.backoff, topic, q)) &&
+//@        otherMeshesSame(gs, topic) && sepBackoff(gs) && validBackoffParams(gs) && gs.params.UnsubscribeBackoff == old(gs.params.UnsubscribeBackoff) &&
+//@        (forall t string, q string :: old(has(gs.backoff, t, q)) ==> has(gs.backoff, t, q) && gs.backoff[t][q] >= old(gs.backoff[t][q]))
+//@   at call sendPrune assert unsubscribe-prune: $arg1 == p && $arg2 == topic && $arg3
+//@   at call addBackoff assert unsubscribe-backoff: $arg1 == p && $arg2 == topic && $arg3
+//@   at call Prune assert traced-member: $arg1 == p && $arg2 == topic
+//@   ensures not-joined-noop: !old(topic in gs.mesh) ==> calls((*pubsubTracer).Leave) == old(calls((*pubsubTracer).Leave)) &&
+//@        calls((*GossipSubRouter).sendPrune) == old(calls((*GossipSubRouter).sendPrune))
+//@   ensures left: !(topic in gs.mesh)
+//@   ensures leave-traced: old(topic in gs.mesh) ==> calls((*pubsubTracer).Leave) == old(calls((*pubsubTracer).Leave)) + 1 && lastarg((*pubsubTracer).Leave, 1) == topic
+//@   ensures every-member-pruned-once: old(topic in gs.mesh) ==> (forall q string :: nPrune[topic][q] - old(nPrune[topic][q]) == ite(old(has(gs.mesh, topic, q)), 1, 0))
+//@   ensures every-member-backed-off: old(topic in gs.mesh) ==> (forall q string :: old(has(gs.mesh, topic, q)) ==> has(gs.backoff, topic, q))
+//@   ensures other-meshes: otherMeshesSame(gs, topic)
+//@   ensures backoff-grows: forall t string, q string :: old(has(gs.backoff, t, q)) ==> has(gs.backoff, t, q) && gs.backoff[t][q] >= old(gs.backoff[t][q])
+
+// OnClosedOutboundStream: the peer disappears from the router's peer table, from every mesh and
+// fanout set and from the pending gossip/control/outbound/unwanted tables; nobody else is
+// touched; backoff entries are kept (departures do not reset the backoff).
+//@ func (*GossipSubRouter).OnClosedOutboundStream
+//@   property C07 C13 C08 C16
+//@   requires sep: sepMesh(gs) && sepFanout(gs)
+//@   noframe
+//@   loop 1 invariant mesh: (forall t string :: $visited[t] ==> !has(gs.mesh, t, p)) &&
+//@        (forall t string, q string :: q != p ==> has(gs.mesh, t, q) == old(has(gs.mesh, t, q)) && has(gs.fanout, t, q) == old(has(gs.fanout, t, q))) &&
+//@        (forall t string :: (t in gs.mesh) == old(t in gs.mesh) && gs.mesh[t] == old(gs.mesh[t]) && (t in gs.fanout) == old(t in gs.fanout) && gs.fanout[t] == old(gs.fanout[t])) &&
+//@        sepMesh(gs) && sepFanout(gs) && !(p in gs.peers) && backoffSame(gs)
+//@   loop 2 invariant fanout: (forall t string :: !has(gs.mesh, t, p)) && (forall t string :: $visited[t] ==> !has(gs.fanout, t, p)) &&
+//@        (forall t string, q string :: q != p ==> has(gs.mesh, t, q) == old(has(gs.mesh, t, q)) && has(gs.fanout, t, q) == old(has(gs.fanout, t, q))) &&
+//@        (forall t string :: (t in gs.mesh) == old(t in gs.mesh) && gs.mesh[t] == old(gs.mesh[t]) && (t in gs.fanout) == old(t in gs.fanout) && gs.fanout[t] == old(gs.fanout[t])) &&
+//@        sepMesh(gs) && sepFanout(gs) && !(p in gs.peers) && backoffSame(gs)
+//@   ensures closed-traced: calls((*pubsubTracer).OnClosedOutboundStream) == old(calls((*pubsubTracer).OnClosedOutboundStream)) + 1 && lastarg((*pubsubTracer).OnClosedOutboundStream, 1) == p
+//@   ensures gone-from-peers: !(p in gs.peers)
+//@   ensures gone-from-meshes: forall t string :: !has(gs.mesh, t, p)
+//@   ensures gone-from-fanout: forall t string :: !has(gs.fanout, t, p)
+//@   ensures gone-from-pending: !(p in gs.gossip) && !(p in gs.control) && !(p in gs.outbound) && !(p in gs.unwanted)
+//@   ensures others-kept: forall t string, q string :: q != p ==> has(gs.mesh, t, q) == old(has(gs.mesh, t, q)) && has(gs.fanout, t, q) == old(has(gs.fanout, t, q))
+//@   ensures other-peers-kept: forall q string :: q != p ==> (q in gs.peers) == old(q in gs.peers) && (q in gs.outbound) == old(q in gs.outbound) &&
+//@        (q in gs.gossip) == old(q in gs.gossip) && (q in gs.control) == old(q in gs.control) && (q in gs.unwanted) == old(q in gs.unwanted)
+//@   ensures backoff-kept: backoffSame(gs)
+
+// makePrune: peers that speak v1.1+ (PX feature) always get the backoff period in seconds
+// (unsubscribe vs. prune backoff); v1.0 peers get neither PX nor backoff; PX records are attached
+// only when doPX.
+//@ func (*GossipSubRouter).makePrune
+//@   property C08 C09
+//@   noframe
+//@   at call feature#1 assert px-feature-of-peer: $arg0 == GossipSubFeaturePX && $arg1 == gs.peers[p]
+//@   ensures fresh: fresh(result) && result.TopicID != nil && deref(result.TopicID) == topic
+//@   ensures v10-bare: !firstret(dyn:feature) ==> result.Backoff == nil && len(result.Peers) == 0
+//@   ensures backoff-stated: firstret(dyn:feature) ==> result.Backoff != nil &&
+//@        deref(result.Backoff) == ite(isUnsubscribe, old(gs.params.UnsubscribeBackoff), old(gs.params.PruneBackoff)) / 1000000000
+//@   ensures no-px-unless-asked: !doPX ==> len(result.Peers) == 0
+//@   ensures feature-asked: calls(dyn:feature) >= old(calls(dyn:feature)) + 1
+
+// ---- C17 / C09: gossip handlers ----
+
+// computeChecksum is a deterministic function of the message id (sha256 / copy): trusted.
+//@ spec fn csum(mid string) checksum
+//@ func computeChecksum
+//@   trusted deterministic function of its argument (sha256 for long ids, the bytes themselves otherwise)
+//@   modifies nothing
+//@   ensures function: result == csum(mid)
+
+//@ func shuffleStrings
+//@   property C17
+//@   modifies elems(lst)
+//@   loop 1 invariant members: forall i int :: 0 <= i && i < len(lst) ==> (exists j int :: 0 <= j && j < len(lst) && lst[i] == old(lst[j]))
+//@   ensures members: forall i int :: 0 <= i && i < len(lst) ==> (exists j int :: 0 <= j && j < len(lst) && lst[i] == old(lst[j]))
+
+//@ func (*gossipTracer).AddPromise
+//@   trusted promise bookkeeping; specified separately (gossip tracer)
+//@   requires nonempty: gt == nil || len(msgIDs) > 0
+//@   modifies nothing
+
+// handleIHave: ignored below the gossip threshold; at most MaxIHaveMessages IHAVEs are honoured
+// and at most MaxIHaveLength ids requested per peer per heartbeat; only unseen ids of joined
+// topics, among the first MaxIHaveLength ids of each IHAVE, are requested; the promise tracker is
+// given the non-empty request list.
+//@ func (*GossipSubRouter).handleIHave
+//@   property C09 C17
+//@   requires maps: gs.peerhave != nil && gs.iasked != nil && gs.peerhave != gs.iasked && gs.params.MaxIHaveLength >= 0
+//@   requires ctl: ctl == nil || (forall i int :: 0 <= i && i < len(ctl.Ihave) ==> ctl.Ihave[i] != nil)
+//@   noframe
+//@   loop 1 invariant unseen: iwant != nil && fresh(iwant) && (forall m string :: m in iwant ==> !seenIn(gs.p, m)) && countersAfterAdmission(gs, p)
+//@   loop 2 invariant unseen: iwant != nil && fresh(iwant) && (forall m string :: m in iwant ==> !seenIn(gs.p, m)) && countersAfterAdmission(gs, p) && rangeindex#2 <= gs.params.MaxIHaveLength
+//@   loop 3 invariant listing: (forall k int :: 0 <= k && k < len(iwantlst) ==> iwantlst[k] in iwant) && (forall m string :: m in iwant ==> !seenIn(gs.p, m)) &&
+//@        countersAfterAdmission(gs, p) && 1 <= iask && iask <= len(iwant) && iask + old(gs.iasked[p]) <= gs.params.MaxIHaveLength && len(iwantlst) == $count &&
+//@        len(iwantlst) <= len(iwant) && (forall m string :: $visited[m] ==> m in iwant) && fresh(iwantlst)
+//@   at call seenMessage assert within-cap: msgIdx < gs.params.MaxIHaveLength && $arg1 == mid
+//@   at call AddPromise assert promise: $arg1 == p && len($arg2) >= 1 && len($arg2) == iask
+//@   ensures below-gossip-threshold: old(score(gs, p)) < old(gs.gossipThreshold) ==> result == nil &&
+//@        (forall q string :: gs.peerhave[q] == old(gs.peerhave[q]) && gs.iasked[q] == old(gs.iasked[q])) &&
+//@        calls((*gossipTracer).AddPromise) == old(calls((*gossipTracer).AddPromise)) && calls((*PubSub).seenMessage) == old(calls((*PubSub).seenMessage))
+//@   ensures counted: !(old(score(gs, p)) < old(gs.gossipThreshold)) ==> gs.peerhave[p] == old(gs.peerhave[p]) + 1
+//@   ensures other-peers: forall q string :: q != p ==> gs.peerhave[q] == old(gs.peerhave[q]) && gs.iasked[q] == old(gs.iasked[q])
+//@   ensures too-many-ihaves: old(gs.peerhave[p]) + 1 > old(gs.params.MaxIHaveMessages) ==> result == nil && gs.iasked[p] == old(gs.iasked[p])
+//@   ensures already-asked-enough: old(gs.iasked[p]) >= old(gs.params.MaxIHaveLength) ==> result == nil && gs.iasked[p] == old(gs.iasked[p])
+//@   ensures asked-cap: gs.iasked[p] >= old(gs.iasked[p]) && (gs.iasked[p] > old(gs.iasked[p]) ==> gs.iasked[p] <= old(gs.params.MaxIHaveLength))
+//@   ensures request: result != nil ==> len(result) == 1 && result[0] != nil && len(result[0].MessageIDs) == gs.iasked[p] - old(gs.iasked[p]) &&
+//@        len(result[0].MessageIDs) >= 1 && calls((*gossipTracer).AddPromise) == old(calls((*gossipTracer).AddPromise)) + 1
+//@   ensures only-unseen: result != nil ==> (forall k int :: 0 <= k && k < len(result[0].MessageIDs) ==> !seenIn(gs.p, result[0].MessageIDs[k]))
+//@   ensures nothing-asked-no-change: result == nil ==> gs.iasked[p] == old(gs.iasked[p])
+
+//@ spec fn countersAfterAdmission(gs *GossipSubRouter, p string) bool = gs.peerhave == old(gs.peerhave) && gs.iasked == old(gs.iasked) &&
+//@      gs.peerhave[p] == old(gs.peerhave[p]) + 1 && gs.peerhave[p] <= gs.params.MaxIHaveMessages && old(gs.iasked[p]) < gs.params.MaxIHaveLength &&
+//@      (forall q string :: gs.iasked[q] == old(gs.iasked[q])) && (forall q string :: q != p ==> gs.peerhave[q] == old(gs.peerhave[q])) &&
+//@      gs.params.MaxIHaveLength == old(gs.params.MaxIHaveLength) && gs.params.MaxIHaveMessages == old(gs.params.MaxIHaveMessages) &&
+//@      (forall c iface, x string :: tcSeen[c][x] == old(tcSeen[c][x])) && gs.p == old(gs.p) && gs.p.seenMessages == old(gs.p.seenMessages) &&
+//@      calls((*gossipTracer).AddPromise) == old(calls((*gossipTracer).AddPromise))
+
+// handleIWant: unanswered below the gossip threshold; the transmission counter of the message
+// cache is consulted (and incremented) only for messages the peer has not declared unwanted; a
+// message is returned only if it is cached; requests beyond GossipRetransmission are skipped.
+//@ func (*GossipSubRouter).handleIWant
+//@   property C09 C17
+//@   requires cache: gs.mcache != nil && mcRep(gs.mcache)
+//@   requires ctl: ctl == nil || (forall i int :: 0 <= i && i < len(ctl.Iwant) ==> ctl.Iwant[i] != nil)
+//@   noframe
+//@   loop 1 invariant serving: servingInv(gs, p, ihave)
+//@   loop 2 invariant serving: servingInv(gs, p, ihave)
+//@   at call GetForPeer assert wanted: $arg2 == p && $arg1 == mid && !has(gs.unwanted, p, csum(mid))
+//@   at call Debug#2 assert over-limit: lastret((*MessageCache).GetForPeer, 1) > gs.params.GossipRetransmission
+//@   ensures below-gossip-threshold: old(score(gs, p)) < old(gs.gossipThreshold) ==> result == nil &&
+//@        calls((*MessageCache).GetForPeer) == old(calls((*MessageCache).GetForPeer))
+//@   ensures unwanted-kept: forall q string, c checksum :: has(gs.unwanted, q, c) == old(has(gs.unwanted, q, c))
+
+//@ spec fn servingInv(gs *GossipSubRouter, p string, ihave map[string]*pb.Message) bool = ihave != nil && fresh(ihave) && gs.mcache == old(gs.mcache) && mcRep(gs.mcache) &&
+//@      gs.mcache.msgs == old(gs.mcache.msgs) && (forall m string :: (m in gs.mcache.msgs) == old(m in gs.mcache.msgs) && gs.mcache.msgs[m] == old(gs.mcache.msgs[m])) &&
+//@      (forall m string :: m in ihave ==> m in gs.mcache.msgs && !has(gs.unwanted, p, csum(m)) && ihave[m] == gs.mcache.msgs[m].Message) &&
+//@      gs.unwanted == old(gs.unwanted) && (forall q string :: (q in gs.unwanted) == old(q in gs.unwanted) && gs.unwanted[q] == old(gs.unwanted[q])) &&
+//@      (forall q string, c checksum :: has(gs.unwanted, q, c) == old(has(gs.unwanted, q, c)))
+
+// handleIDontWant: at most MaxIDontWantMessages messages honoured per peer per heartbeat, at most
+// MaxIDontWantLength ids recorded per message, each with the configured TTL.
+//@ func (*GossipSubRouter).handleIDontWant
+//@   property C17
+//@   requires maps: gs.peerdontwant != nil && gs.unwanted != nil && gs.params.MaxIDontWantLength >= 0
+//@   requires ctl: ctl == nil || (forall i int :: 0 <= i && i < len(ctl.Idontwant) ==> ctl.Idontwant[i] != nil)
+//@   noframe
+//@   loop 1 invariant capped: totalUnwantedIds <= gs.params.MaxIDontWantLength && totalUnwantedIds >= 0 && idwStable(gs, p)
+//@   loop 2 invariant capped: totalUnwantedIds <= gs.params.MaxIDontWantLength && totalUnwantedIds >= 0 && idwStable(gs, p)
+//@   at call computeChecksum assert within-cap: totalUnwantedIds <= gs.params.MaxIDontWantLength && totalUnwantedIds >= 1
+//@   ensures flood-protected: old(gs.peerdontwant[p]) >= old(gs.params.MaxIDontWantMessages) && (ctl != nil && len(old(ctl.Idontwant)) > 0) ==>
+//@        gs.peerdontwant[p] == old(gs.peerdontwant[p]) && calls(computeChecksum) == old(calls(computeChecksum))
+//@   ensures counted: old(gs.peerdontwant[p]) < old(gs.params.MaxIDontWantMessages) && ctl != nil && len(old(ctl.Idontwant)) > 0 ==> gs.peerdontwant[p] == old(gs.peerdontwant[p]) + 1
+//@   ensures ids-capped: calls(computeChecksum) - old(calls(computeChecksum)) <= old(gs.params.MaxIDontWantLength)
+//@   ensures other-peers: forall q string :: q != p ==> gs.peerdontwant[q] == old(gs.peerdontwant[q])
+
+//@ spec fn idwStable(gs *GossipSubRouter, p string) bool = gs.params.MaxIDontWantLength == old(gs.params.MaxIDontWantLength) &&
+//@      gs.peerdontwant == old(gs.peerdontwant) && gs.peerdontwant[p] == old(gs.peerdontwant[p]) + 1 && (forall q string :: q != p ==> gs.peerdontwant[q] == old(gs.peerdontwant[q])) &&
+//@      calls(computeChecksum) - old(calls(computeChecksum)) == totalUnwantedIds
+
+// clearIHaveCounters: both per-heartbeat IHAVE counters are empty afterwards.
+//@ func (*GossipSubRouter).clearIHaveCounters
+//@   property C17 C13
+//@   noframe
+//@   ensures reset: len(gs.peerhave) == 0 && len(gs.iasked) == 0
